@@ -587,6 +587,13 @@ class Sim:
         if len(a.model.atoms) + len(b.model.atoms) > self.cfg.get('max_atoms', MAX_ATOMS) + 4:
             return None
         mode = op.get('mode', 'or')
+        if op.get('shift') and gi != hi and b.model.atoms:
+            # renumber the right operand first so that the numbers are disjoint (the branch of union() that does not renumber)
+            k = max(a.model.atoms, default=0) + op['shift']
+            mp = {n: n + k for n in b.model.atoms}
+            self._do('remap', True, lambda: b.mol.remap(dict(mp)))
+            b.model.remap(mp)
+            self.probes['union_disjoint_by_shift'] += 1
         collide = bool(a.model.atoms.keys() & b.model.atoms.keys())
         inplace = mode in ('ior', 'union_nc')
         if not inplace and len(self.handles) >= self.cfg.get('max_handles', MAXH):
@@ -1136,6 +1143,8 @@ def gen_op(sim, rng, frng, cfg):
     elif kind == 'union':
         op['g'] = rng.randrange(len(sim.handles))
         op['mode'] = rng.choice(['or', 'or', 'ior', 'union', 'union_nr', 'union_nc'])
+        if rng.random() < 0.4:
+            op['shift'] = rng.randrange(1, 9)
     elif kind == 'copy':
         op['ks'] = rng.random() < 0.4
         op['kc'] = rng.random() < 0.4
